@@ -790,6 +790,29 @@ func generate(r *hx.Rng) []*kase {
 			full.Entries[0].Data[k] = fb
 		}
 		addSeq("v2", local, remote, []raftpb.Message{full, third}, false)
+		// two groups and the size boundary together: A in full, then a non-continuing append of ANOTHER group that is
+		// larger than the encoder's 1 MiB scratch buffer (sent through the Marshal branch), then A's direct
+		// continuation: the cursor must be B's by then, so A goes out in full again
+		gb := genGroups(r, local, remote, 1)[0]
+		for sameIDs(&gb.from, &g.from) || sameIDs(&gb.to, &g.to) {
+			gb = genGroups(r, local, remote, 1)[0]
+		}
+		a1 := g.app(r, 40, g.term, 1, func(t, ix uint64) raftpb.Entry { return genEntry(r, t, ix) })
+		a2 := g.app(r, 41, g.term, 1, func(t, ix uint64) raftpb.Entry { return genEntry(r, t, ix) })
+		bbig := gb.app(r, gb.last, gb.term, 1, func(t, ix uint64) raftpb.Entry { return raftpb.Entry{Term: t, Index: ix, Data: []byte{}} })
+		for l := mib + 1 - 600; l <= mib+1; l++ {
+			bbig.Entries[0].Data = make([]byte, l)
+			if bbig.Size() == mib+1 {
+				break
+			}
+		}
+		if bbig.Size() != mib+1 {
+			panic("no message of size 2^20+1")
+		}
+		for k := range bbig.Entries[0].Data {
+			bbig.Entries[0].Data[k] = fb
+		}
+		addSeq("v2", local, remote, []raftpb.Message{a1, bbig, a2}, false)
 		codec := []string{"msg", "bare"}[r.Pick(2)]
 		addSeq(codec, local, remote, []raftpb.Message{third, full, first}, false)
 	}
